@@ -312,9 +312,18 @@ def run(ctx):
     eng = ctx.engine('dev')
     SHARED['scenarios'] = S
     SHARED['engine'] = eng
-    params = {'preempt': 2 if ctx.tier == 'quick' else 3, 'seed': ctx.seed, 'timeout_ms': 10000,
-              'step_limit': 5_000_000, 'wall_budget': 400 if ctx.tier == 'quick' else 3000}
+    params = {'preempt': 2, 'seed': ctx.seed, 'timeout_ms': 10000, 'step_limit': 5_000_000, 'wall_budget': 900}
     recs, summ = ex.explore(eng, harness, params, prepare=None)
+    if ctx.tier == 'thorough':
+        # thorough = the complete 2-preemption exploration above, then 3 preemptions for as long as the budget lasts
+        recs3, summ3 = ex.explore(eng, harness, dict(params, preempt=3, wall_budget=1500), prepare=None)
+        recs += recs3
+        for k in ('paths', 'sat', 'unsat', 'unknown', 'solver_s', 'steps', 'decisions'):
+            summ[k] += summ3[k]
+        summ['truncated'] = summ.get('truncated') or summ3.get('truncated')
+        summ['models_used'] = sorted(set(summ['models_used']) | set(summ3['models_used']))
+        summ['bodies_used'] = sorted(set(summ['bodies_used']) | set(summ3['bodies_used']))
+        params = dict(params, preempt=3)
     inconclusive = []
     by_status = {}
     for r in recs:
